@@ -25,10 +25,10 @@ META = {
             "lists every source with the exception it raised (empty list included).",
     "note": "a source 'succeeds' iff its authenticate() returns; producing (not trying) further sources after "
             "the first success is not judged",
-    "design_ref": "4/C44",
+    "design_ref": "4/C44 (+ strategy reuse and PartialAuthentication outcome, DESIGN 10)",
 }
 OUTCOMES4 = ["ok", "AuthenticationException", "SSHException", "ValueError"]
-OUTCOMES6 = OUTCOMES4 + ["BadAuthenticationType", "OSError"]
+OUTCOMES6 = OUTCOMES4 + ["BadAuthenticationType", "OSError", "PartialAuthentication"]
 logging.getLogger("paramiko").setLevel(logging.CRITICAL)
 
 
@@ -43,6 +43,9 @@ def make_exc(name, i):
         return BadAuthenticationType("source %d wrong type" % i, ["publickey"])
     if name == "OSError":
         return OSError("source %d io" % i)
+    if name == "PartialAuthentication":
+        from paramiko.ssh_exception import PartialAuthentication
+        return PartialAuthentication(["password", "keyboard-interactive"])
     raise KeyError(name)
 
 
@@ -116,9 +119,26 @@ def check_listing(listing, sources, upto):
     return None
 
 
-def run_list(outcomes):
+def run_reused(first, second):
+    """One strategy object used for two authenticate() calls (each with its own source list): the second
+    call's report must list exactly the second call's sources."""
+    strat = ScriptedStrategy(list(first))
+    try:
+        strat.authenticate(object())
+    except Exception:  # noqa
+        pass
+    strat.outcomes = list(second)
+    strat.calls = []
+    strat.sources = []
+    res = run_list(second, strat)
+    if res is not None:
+        return (res[0] + ":second-authenticate-on-the-same-strategy", dict(res[1], first_call=list(first)))
+    return None
+
+
+def run_list(outcomes, strat=None):
     """Run one list on the real code.  Returns None or (key, detail)."""
-    strat = ScriptedStrategy(list(outcomes))
+    strat = strat or ScriptedStrategy(list(outcomes))
     transport = object()
     ret = exc = None
     try:
@@ -174,6 +194,18 @@ def run_list(outcomes):
 
 
 def work(item, acc):
+    if item[0] == "reuse":
+        _, alpha, n = item
+        lists = [t for k in range(0, n + 1) for t in itertools.product(alpha, repeat=k)]
+        for first in lists:
+            for second in lists:
+                acc.ev()
+                acc.nt(("reuse", first, second))
+                res = run_reused(first, second)
+                if res is not None:
+                    acc.violation(res[0], {"first": list(first), "second": list(second), **res[1]},
+                                  {"reuse": [list(first), list(second)]})
+        return
     alpha, length, prefix = item
     for rest in itertools.product(alpha, repeat=length - len(prefix)):
         outcomes = tuple(prefix) + rest
@@ -202,6 +234,8 @@ def plan(tier):
     for n in range(0, 5 if tier == "quick" else 7):
         k = max(0, n - 4)
         items += [(OUTCOMES6, n, p) for p in itertools.product(OUTCOMES6, repeat=k)]
+    # strategy objects are reusable: every pair of lists of <= 2 (quick) / 3 (thorough) sources on one object
+    items.append(("reuse", OUTCOMES4, 2 if tier == "quick" else 3))
     return items, nmax
 
 
@@ -223,6 +257,11 @@ def main(tier):
 
 
 def replay(rec):
+    if "reuse" in rec["replay"]:
+        first, second = (tuple(x) for x in rec["replay"]["reuse"])
+        res = run_reused(first, second)
+        print("first call:", first, "second call:", second, "verdict:", res or "ok")
+        return 1 if res else 0
     outcomes = tuple(rec["replay"]["outcomes"])
     print("source outcomes:", outcomes)
     strat = ScriptedStrategy(list(outcomes))
